@@ -13,11 +13,15 @@ def seq(profiles, quick, thorough, accept):
     return {'kind': 'seq', 'profiles': profiles, 'quick': quick, 'thorough': thorough, 'accept': accept}
 
 
+def any_fail(f):
+    return True
+
+
 PROPS = {
     'C01': {
         'modules': ['OtterVerif.Props.C01', 'OtterVerif.Props.C03', 'OtterVerif.Props.C06', 'OtterVerif.Props.C07'],
         'engines': [seq(['mix', 'load', 'expiry', 'bound', 'persist', 'huge', 'deferred'], 420, 14000,
-                        lambda f: not (f['class'] in ('C04', 'C05') and f['k1risk'] == 1))],
+                        any_fail)],
     },
     'C03': {
         'modules': ['OtterVerif.Props.C03'],
@@ -109,6 +113,24 @@ PROPS['C16'] = {
     'rule': 'UNIT-mpsc: sequential push/pop phases over initial/maximum capacity pairs (2..100 / 4..2048), every chunk switch and the full/empty boundaries; model must reproduce the five index words and chunk lengths, oracle = bounded FIFO. '
             'CONC-mpsc: 1-12 real producers with (a) no consumer and offers that fit: no refusal allowed, (b) a consumer: delivery log exactly-once and in per-producer order. distinct = distinct transcripts with >= 10 lines',
     'trusted': UNIT_TRUST + CONC_TRUST,
+}
+
+POLICY_ENGINES = [unit('policy', 60, 3000, chunk=5),
+                  {'kind': 'unit', 'name': 'policy', 'hcmd': 'unit-policy', 'dcmd': 'policy', 'quick': 60, 'thorough': 3000, 'chunk': 5, 'args': ['-ooo']},
+                  {'kind': 'unit', 'name': 'concpolicy', 'hcmd': 'conc-policy', 'dcmd': 'concpolicy', 'quick': 48, 'thorough': 3000, 'chunk': 4, 'args': []}]
+POLICY_RULE = ('UNIT-policy: add/update/delete/access/setMaximum/evictNodes/climb sequences on the real policy (weighted and unweighted, zero/oversized weights, SetMaximum incl. 0), in write order and with '
+               'out-of-order events (add of a replaced node, update whose old node is unknown, delete before add); the model must reproduce the three deques, six counters and evicted nodes after every call; '
+               'audit after every call: linked = mapped, no dead node linked, counters = weight sums, bound after evictNodes. CONC-policy: 2-8 goroutines rewriting/invalidating/reading 2-9 keys of a small cache, '
+               'audit at every quiescent point. SEQ: bound/size/wsize/hottest/coldest oracles incl. deferred executor with rewrites before maintenance. distinct = distinct transcripts with >= 10 lines')
+PROPS['C04'] = {
+    'modules': ['OtterVerif.Props.C04'],
+    'engines': POLICY_ENGINES + [seq(['bound', 'deferredk1', 'mix'], 240, 9000, lambda f: f['class'] in ('C04',) or f['op'] == 'op_bound')],
+    'rule': POLICY_RULE, 'trusted': UNIT_TRUST + CONC_TRUST + SEQ_TRUST[1:],
+}
+PROPS['C05'] = {
+    'modules': ['OtterVerif.Props.C04'],
+    'engines': POLICY_ENGINES + [seq(['bound', 'deferredk1', 'deferred'], 240, 9000, lambda f: f['class'] in ('C05',))],
+    'rule': POLICY_RULE, 'trusted': UNIT_TRUST + CONC_TRUST + SEQ_TRUST[1:],
 }
 
 for _p in PROPS.values():
